@@ -906,3 +906,58 @@ Proof.
     match goal with |- context [?n <? 1073741824] => destruct (Z.ltb_spec n 1073741824); xstep; [|reflexivity] end;
     rewrite wrap_I32_id by lia; reflexivity.
 Qed.
+
+(* ------------------------------------------------------------------ vi.c: vi_findchar (f F t T: the search is recorded, then lbuf_findchar) *)
+Lemma cstr_block_length' (s : bytes) : length (cstr_block (zb s)) = S (length s).
+Proof. unfold cstr_block, zb. rewrite app_length, !map_length. cbn. lia. Qed.
+Lemma builtin_strcpy' m bd (dblk : block) bsrc (t : bytes) :
+  nth_error m bd = Some dblk -> str_at m bsrc t -> nonul t -> (S (length t) <= length dblk)%nat ->
+  do_builtin_m BStrcpy [VPtr bd 0; VPtr bsrc 0] m = Ok (VPtr bd 0, upd m bd (put_cells dblk 0 (cstr_block (zb t)))).
+Proof.
+  intros Hd Hs Hn Hl. cbn [do_builtin_m]. change (blk_from m bsrc 0) with (blk_from m bsrc (Z.of_nat 0)). rewrite (blk_from_str m bsrc t 0 Hs ltac:(lia)). cbn [bind skipn].
+  rewrite scan0_cstr by exact Hn. cbn [bind Nat.add].
+  rewrite firstn_all2 by (rewrite cstr_block_length'; lia).
+  rewrite (write_cells_ok m bd dblk); [reflexivity|exact Hd|lia|]. rewrite cstr_block_length'. cbn. lia.
+Qed.
+(* the memory after the search was recorded: vi_charlast holds cs, vi_charcmd holds cmd *)
+Definition fc_recorded (m : mem) (last : block) (cst : bytes) (cmd : Z) : mem :=
+  upd (upd m G_vi_charlast (put_cells last 0 (cstr_block (zb cst)))) G_vi_charcmd [VInt cmd].
+Lemma charlast_ne_cmd : G_vi_charlast <> G_vi_charcmd. Proof. intro H. vm_compute in H. discriminate H. Qed.
+
+Theorem tr_vi_findchar m lb bln lbs lines br bo bc cst (cmdN : N) n r o last cmd0 d fuel :
+  lbuf_at m lb bln lbs lines -> lines_small lines -> lines_valid lines ->
+  cell_at m br r -> cell_at m bo o -> i32 r -> i32 o ->
+  str_at m bc cst -> nonul cst -> (uc_len_b (nthb cst 0) - 1 <= length cst)%nat ->
+  nth_error m G_vi_charlast = Some last -> (S (length cst) <= length last)%nat -> cell_at m G_vi_charcmd cmd0 ->
+  ~ In G_vi_charlast (bc :: br :: bo :: lb :: bln :: lbs) -> ~ In G_vi_charcmd (bc :: br :: bo :: lb :: bln :: lbs) ->
+  Z.of_N cmdN <= 2147483647 -> -2147483647 <= n <= 2147483647 -> n <> 0 ->
+  (forall l, getl (map chop lines) r = Some l -> 0 <= o < slen l) ->
+  (maxlen lines < fuel)%nat ->
+  exists sv,
+  callf cprog fuel (S (S (S (S (S d))))) F_vi_findchar [VPtr lb 0; VPtr bc 0; VInt (Z.of_N cmdN); VInt n; VPtr br 0; VPtr bo 0] m
+  = match lbuf_findchar (map chop lines) cst cmdN n r o with
+    | Some o' => Ok (VInt 0, upd (fc_recorded m last cst (Z.of_N cmdN)) bo [VInt o'] ++ [[sv]])
+    | None => Ok (VInt 1, fc_recorded m last cst (Z.of_N cmdN) ++ [[sv]])
+    end.
+Proof.
+  intros R Hsm Hval Hr Ho Ir Io Hc Hcn Hclen Hlast Hll Hcc N1 N2 Hcmd Hn Hn0 Hcur Hf.
+  assert (L1 : (G_vi_charlast < length m)%nat) by (apply nth_error_Some; congruence).
+  assert (L2 : (G_vi_charcmd < length m)%nat) by (apply (cell_lt _ _ _ Hcc)).
+  set (m1 := upd m G_vi_charlast (put_cells last 0 (cstr_block (zb cst)))).
+  assert (L2' : (G_vi_charcmd < length m1)%nat) by (unfold m1; rewrite upd_length by exact L1; exact L2).
+  set (m2 := fc_recorded m last cst (Z.of_N cmdN)).
+  assert (Hother : forall k, k <> G_vi_charlast -> k <> G_vi_charcmd -> nth_error m2 k = nth_error m k).
+  { intros k K1 K2. unfold m2, fc_recorded. fold m1. rewrite mem_upd_other by assumption. unfold m1. apply mem_upd_other; assumption. }
+  assert (R2 : lbuf_at m2 lb bln lbs lines).
+  { apply (lbuf_at_other m); [exact R|]. intros k Hk. apply Hother; intros ->; [apply N1|apply N2]; right; right; right; exact Hk. }
+  assert (Hr2 : cell_at m2 br r) by (unfold cell_at; rewrite Hother; [exact Hr| |]; intros E; [apply N1|apply N2]; rewrite <- E; right; left; reflexivity).
+  assert (Ho2 : cell_at m2 bo o) by (unfold cell_at; rewrite Hother; [exact Ho| |]; intros E; [apply N1|apply N2]; rewrite <- E; right; right; left; reflexivity).
+  assert (Hc2 : str_at m2 bc cst) by (unfold str_at; rewrite Hother; [exact Hc| |]; intros E; [apply N1|apply N2]; rewrite <- E; left; reflexivity).
+  destruct (tr_lbuf_findchar m2 lb bln lbs lines br bo bc cst cmdN n r o d fuel R2 Hsm Hval Hr2 Ho2 Ir Io Hc2 (nonul_lt256 _ Hcn) Hclen Hcmd Hn Hn0 Hcur Hf) as [sv Hsv].
+  exists sv. enter F_vi_findchar cf_vi_findchar. xstep. cbn [ptr_cmp].
+  destruct (Nat.eqb_spec bc G_vi_charlast) as [E|_]; [exfalso; apply N1; left; rewrite E; reflexivity|]. xstep.
+  rewrite (builtin_strcpy' m G_vi_charlast last bc cst Hlast Hc Hcn Hll). xstep. fold m1.
+  rewrite (store_cell m1 G_vi_charcmd cmd0 _ (cell_at_upd_other m _ _ _ _ L1 (fun E => charlast_ne_cmd (eq_sym E)) Hcc)). xstep.
+  rewrite wrap_I32_id by (pose proof (N2Z.is_nonneg cmdN); lia). change (upd m1 G_vi_charcmd [VInt (Z.of_N cmdN)]) with m2.
+  rewrite Hsv. destruct (lbuf_findchar (map chop lines) cst cmdN n r o); reflexivity.
+Qed.
